@@ -8,95 +8,47 @@
 
    The original code (cc33fde) is refuted by concrete witness schedules found by breadth-first
    search with parent pointers ([find_path]) and re-executed by [exec] inside the theorem. *)
-From Scrapli Require Import Conc Close.
+From Scrapli Require Import Conc Close CloseDefs.
+From Scrapli Require CloseShard00.
+From Scrapli Require CloseShard01.
+From Scrapli Require CloseShard02.
+From Scrapli Require CloseShard03.
+From Scrapli Require CloseShard04.
+From Scrapli Require CloseShard05.
+From Scrapli Require CloseShard06.
+From Scrapli Require CloseShard07.
+From Scrapli Require CloseShard08.
+From Scrapli Require CloseShard09.
+From Scrapli Require CloseShard10.
+From Scrapli Require CloseShard11.
+From Scrapli Require CloseShard12.
 From Coq Require Import List Arith Bool Lia.
 Import ListNotations.
 
-Definition FUEL := 4000.      (* BFS levels; the flag returned by [reach] says whether it sufficed *)
-Definition EF_FUEL := 4000.   (* rounds of backward reachability (it stops at its fixpoint) *)
-
-(* Which scenarios are verified.  Everything except: NETCONF with BOTH a second Close and an RPC in
-   flight while the connection is also changing — that product has > 10^5 states; the two features
-   are verified separately there and together in the static connection states. *)
-Definition static_state (st : cstate) : bool :=
-  match st with StBlocked | StEOF | StIOErr => true | _ => false end.
-Definition in_scope (sc : scenario) : bool :=
-  negb (is_nc (sc_kind sc) && sc_second sc && sc_user sc) || static_state (sc_state sc).
-
-Definition scenarios : list scenario := filter in_scope all_scenarios.
-
-Lemma scenarios_complete : forall sc, in_scope sc = true -> In sc scenarios.
+(* THE computation: all scenarios in scope, all predicates -- done shard by shard in
+   CloseShardNN.v (vm_compute, checked by the kernel at each Qed), assembled here *)
+Lemma all_scenarios_ok : forall sc, In sc scenarios -> ok_on sc (reach_of sc) = true.
 Proof.
-  intros sc H. apply filter_In. split; [apply all_scenarios_complete|exact H].
+  intros sc Hin. pose proof (shard_of_bound sc) as Hb. unfold NSHARDS in Hb.
+  remember (shard_of sc) as n eqn:E. symmetry in E.
+  destruct n; [exact (by_shard 0 CloseShard00.shard_ok sc Hin E)|].
+  destruct n; [exact (by_shard 1 CloseShard01.shard_ok sc Hin E)|].
+  destruct n; [exact (by_shard 2 CloseShard02.shard_ok sc Hin E)|].
+  destruct n; [exact (by_shard 3 CloseShard03.shard_ok sc Hin E)|].
+  destruct n; [exact (by_shard 4 CloseShard04.shard_ok sc Hin E)|].
+  destruct n; [exact (by_shard 5 CloseShard05.shard_ok sc Hin E)|].
+  destruct n; [exact (by_shard 6 CloseShard06.shard_ok sc Hin E)|].
+  destruct n; [exact (by_shard 7 CloseShard07.shard_ok sc Hin E)|].
+  destruct n; [exact (by_shard 8 CloseShard08.shard_ok sc Hin E)|].
+  destruct n; [exact (by_shard 9 CloseShard09.shard_ok sc Hin E)|].
+  destruct n; [exact (by_shard 10 CloseShard10.shard_ok sc Hin E)|].
+  destruct n; [exact (by_shard 11 CloseShard11.shard_ok sc Hin E)|].
+  destruct n; [exact (by_shard 12 CloseShard12.shard_ok sc Hin E)|].
+  exfalso. lia.
 Qed.
-
-(* ---------- the predicates evaluated on the reachable set ---------- *)
-
-Definition is_block (tc : tcb) : bool := match tc with TcBlock => true | _ => false end.
-
-Definition p_no_panic (s : state) : bool := Nat.eqb (panic s) 0.
-
-Definition p_tclosed (sc : scenario) (s : state) : bool :=
-  implb (some_closer_returned sc s) (transport_closed s).
-
-(* in a state where nobody can move any more and all Close calls have returned: every goroutine
-   of the connection is gone — except, for a transport whose blocked read does not return on
-   close, the reader inside that read *)
-Definition thread_gone (sc : scenario) (s : state) (t : tid) : bool :=
-  exited_at (sys_of sc) s t
-  || (is_block (sc_tc sc) && Nat.eqb t T_READER && reader_in_read s).
-
-Definition p_no_leak (sc : scenario) (e : state * list state) : bool :=
-  match snd e with
-  | [] => implb (closers_returned sc (fst e))
-                (forallb (thread_gone sc (fst e)) [T_READER; T_USER; T_RPC; T_POLLER])
-  | _ => true
-  end.
-
-(* the graceful path of Transport.Close (the one that takes implLock) is only entered after the
-   reader goroutine has returned — so it can never wait for a lock held by a blocked read *)
-Definition in_graceful (sc : scenario) (s : state) (t : tid) : bool :=
-  let b := if is_nc (sc_kind sc) then 2 else 0 in
-  Nat.leb (b + 2) (pc_of s t) && Nat.leb (pc_of s t) (b + 4).
-Definition p_graceful (sc : scenario) (s : state) : bool :=
-  implb (in_graceful sc s T_CLOSER1 || (sc_second sc && in_graceful sc s T_CLOSER2))
-        (exited_at (sys_of sc) s T_READER).
-
-Definition all_gone (sc : scenario) (s : state) : bool :=
-  closers_returned sc s && forallb (exited_at (sys_of sc) s) [T_READER; T_USER; T_RPC; T_POLLER].
-
-Definition CLOSER_BOUND := 8.   (* number of program points of the longest closer *)
-
-Definition ok_on (sc : scenario) (rs : list state) : bool :=
-  let sy := sys_of sc in
-  let es := edges sy rs in
-  check_closed sy rs
-  && forallb p_no_panic rs
-  && (forallb (p_tclosed sc) rs && forallb (p_graceful sc) rs)
-  && check_ef es (closers_returned sc) EF_FUEL
-  && (check_mono es T_CLOSER1 && check_mono es T_CLOSER2
-      && forallb (fun s => Nat.leb (pc_of s T_CLOSER1) CLOSER_BOUND
-                           && Nat.leb (pc_of s T_CLOSER2) CLOSER_BOUND) rs)
-  && forallb (p_no_leak sc) es
-  && (is_block (sc_tc sc) || check_ef es (all_gone sc) EF_FUEL).
-
-Definition reach_of (sc : scenario) : list state := fst (reach (sys_of sc) FUEL).
-Definition scenario_ok (sc : scenario) : bool := ok_on sc (reach_of sc).
-
-(* state counts (printed by props/C07.v) *)
-Definition state_count (sc : scenario) : nat * bool :=
-  let r := reach (sys_of sc) FUEL in (length (fst r), snd r).
-
-(* THE computation: all scenarios in scope, all predicates *)
-Lemma all_scenarios_ok : forallb (fun sc => ok_on sc (reach_of sc)) scenarios = true.
-Proof. vm_cast_no_check (eq_refl true). Qed.
 
 Lemma scenario_ok_of : forall sc, in_scope sc = true -> ok_on sc (reach_of sc) = true.
-Proof.
-  intros sc H.
-  exact (proj1 (forallb_forall (fun sc => ok_on sc (reach_of sc)) scenarios) all_scenarios_ok
-               sc (scenarios_complete sc H)).
-Qed.
+Proof. intros sc H. exact (all_scenarios_ok sc (scenarios_complete sc H)). Qed.
 
 Record ok_parts (sc : scenario) (rs : list state) : Prop := mkParts {
   op_closed : check_closed (sys_of sc) rs = true;
